@@ -51,7 +51,7 @@ func init() {
 		},
 		Run:    runC08,
 		Replay: replayC08,
-		Budget: schedBudget(110*time.Second, 30*time.Minute),
+		Budget: schedBudget(150*time.Second, 30*time.Minute),
 	})
 }
 
